@@ -439,7 +439,13 @@ impl<'a> Gen<'a> {
                 // fold with an explicit function
                 let (it, _) = self.iter_expr(&Ty::Int, d);
                 let (init, _) = self.expr(&Ty::Int, d);
-                let f = self.lambda2(&Ty::Int, &Ty::Int, &Ty::Int, d);
+                let mut f = self.lambda2(&Ty::Int, &Ty::Int, &Ty::Int, d);
+                if self.pct(self.p.tick) {
+                    // the function operand is itself effectful (evaluation order of the three operands)
+                    let id = self.fresh_tick();
+                    f = E::Tick(id, 'g', Box::new(f));
+                    self.tag("reduce:$init:effectful-function-operand");
+                }
                 self.tag("reduce:$init");
                 (E::Reduce(Box::new(it), Box::new(init), Box::new(f)), Ty::Int)
             }
@@ -660,7 +666,19 @@ impl<'a> Gen<'a> {
         self.in_loop = saved_loop;
         self.fn_ret.pop();
         self.pop();
-        E::Lambda(vec![(pn, pt.clone())], Ty::Bool, vec![S::Return(Some(Box::new(S::Expr(body))))])
+        let f = E::Lambda(vec![(pn, pt.clone())], Ty::Bool, vec![S::Return(Some(Box::new(S::Expr(body))))]);
+        self.maybe_effectful_fn(f, Ty::Fun(vec![pt.clone()], Box::new(Ty::Bool)))
+    }
+
+    /// sometimes `(() -> FT { ti(k, 0); return f })()`: a function operand whose evaluation is observable
+    fn maybe_effectful_fn(&mut self, f: E, ft: Ty) -> E {
+        if !self.pct(self.p.tick / 2) {
+            return f;
+        }
+        let id = self.fresh_tick();
+        self.tag("expr:effectful-function-operand");
+        let body = vec![S::Expr(E::Tick(id, 'i', Box::new(E::Int(0)))), S::Return(Some(Box::new(S::Expr(f))))];
+        E::Call(Box::new(E::Lambda(Vec::new(), ft, body)), Vec::new())
     }
 
     fn lambda1(&mut self, pt: &Ty, rt: &Ty, d: u32) -> E {
@@ -673,7 +691,8 @@ impl<'a> Gen<'a> {
         self.in_loop = saved_loop;
         self.fn_ret.pop();
         self.pop();
-        E::Lambda(vec![(pn, pt.clone())], rt.clone(), vec![S::Return(Some(Box::new(S::Expr(body))))])
+        let f = E::Lambda(vec![(pn, pt.clone())], rt.clone(), vec![S::Return(Some(Box::new(S::Expr(body))))]);
+        self.maybe_effectful_fn(f, Ty::Fun(vec![pt.clone()], Box::new(rt.clone())))
     }
 
     fn lambda2(&mut self, at: &Ty, xt: &Ty, rt: &Ty, d: u32) -> E {
